@@ -308,7 +308,7 @@ pub fn gen_case(rng: &mut Rng) -> GradCase {
         }
         _ => {
             let start_angle = if rng.chance(0.6) { 0. } else { *rng.pick(&[30.0f32, 90., 180., 45.5, 270.]) };
-            let end_angle = start_angle + *rng.pick(&[360.0f32, 180., 90., 45., 270., 120.]);
+            let end_angle = start_angle + *rng.pick(&[360.0f32, 180., 90., 45., 270., 120., 540., 720.]);
             SrcSpec::Sweep { stops, center: (pos(rng, wf), pos(rng, hf)), start_angle, end_angle, spread }
         }
     };
